@@ -84,6 +84,8 @@ def run(model: RepoModel, rep, tier: str):
     rep.rule("C11.R2", "every (source, sink) pair is evaluated in a fresh TaintEnv which is replaced on every path out of the pair", 2)
     rep.rule("C11.R3", "the sink argument position is decided per rule target: it is definitely assigned in the current iteration "
                        "before it is used", 1)
+    rep.rule("C11.R5", "the rule set is only ever extended: loaded rules are appended to the rule lists and never replaced, removed or "
+                       "de-duplicated (adding rules never removes previously reported flows)", 4)
     rep.rule("C11.R4", "rule filters are consulted: every filter key shipped rules of a kind use is tested by that kind's matcher, and the "
                        "rules used to compute a sink's tag are filtered the same way as the rules that made it a sink", 8)
 
@@ -234,6 +236,43 @@ def run(model: RepoModel, rep, tier: str):
                               f"is reported for an argument the rule does not name (or UnboundLocalError on the first rule)",
                               path=gcfg.describe_path(p))
 
+    # the "no position" sentinel must be excluded before a position comparison whose other side can itself become negative
+    for tl in tloops:
+        body = gcfg.loop_body_nodes[tl]
+        sentinels = {}
+        for n in body:
+            st = gcfg.stmt.get(n)
+            if gcfg.kind[n] == "stmt" and isinstance(st, ast.Assign) and isinstance(st.targets[0], ast.Name) \
+                    and isinstance(st.value, ast.UnaryOp) and isinstance(st.value.op, ast.USub) and isinstance(st.value.operand, ast.Constant):
+                sentinels[st.targets[0].id] = -st.value.operand.value
+        decremented = {x.target.id for x in walk_no_nested(gs.node) if isinstance(x, ast.AugAssign) and isinstance(x.op, ast.Sub) and isinstance(x.target, ast.Name)}
+        for pv, sval in sorted(sentinels.items()):
+            for cmp_ in [x for x in walk_no_nested(gs.node) if isinstance(x, ast.Compare) and len(x.ops) == 1 and isinstance(x.ops[0], ast.Eq)]:
+                sides = [cmp_.left, cmp_.comparators[0]]
+                if not any(isinstance(sd, ast.Name) and sd.id == pv for sd in sides):
+                    continue
+                other = [sd for sd in sides if not (isinstance(sd, ast.Name) and sd.id == pv)][0]
+                if isinstance(other, ast.Constant) or not (isinstance(other, ast.Name) and other.id in decremented):
+                    continue
+                key = f"{TA}::TaintRuleApplier.get_sink_tag_by_rules::`{norm(cmp_)}` excludes the sentinel {sval}"
+                # an enclosing `and` with  pv != sentinel / pv >= 0 / pv > -1
+                excluded = False
+                for bo in [x for x in walk_no_nested(gs.node) if isinstance(x, ast.BoolOp) and isinstance(x.op, ast.And)]:
+                    if any(v is cmp_ for v in bo.values):
+                        for v in bo.values:
+                            if isinstance(v, ast.Compare) and isinstance(v.left, ast.Name) and v.left.id == pv and len(v.ops) == 1:
+                                c0 = v.comparators[0]
+                                cv = -c0.operand.value if isinstance(c0, ast.UnaryOp) and isinstance(c0.operand, ast.Constant) else (c0.value if isinstance(c0, ast.Constant) else None)
+                                if (isinstance(v.ops[0], ast.NotEq) and cv == sval) or (isinstance(v.ops[0], ast.GtE) and cv == 0) or (isinstance(v.ops[0], ast.Gt) and cv == sval):
+                                    excluded = True
+                if excluded:
+                    rep.holds("C11.R3", key, TA, cmp_.lineno, f"conjoined with the exclusion of the sentinel {pv} == {sval}")
+                else:
+                    rep.violation("C11.R3", key, TA, cmp_.lineno,
+                                  f"`{norm(cmp_)}`: `{pv}` is {sval} when the rule target names no argument position, and `{norm(other)}` is "
+                                  f"decremented (a receiver at position 0 becomes -1), so the two sentinels meet: the receiver's taint is "
+                                  f"taken for the designated argument and a flow is reported for a position the rule does not name")
+
     # ------------------------------------------------------------------ R4
     acc = accept_functions(ap)
     rep.analysed["rule matchers"] = {k: {"rules": v[1], "kind": v[2], "tests": sorted(rule_fields_tested(v[0].node))} for k, v in acc.items()}
@@ -304,6 +343,39 @@ def run(model: RepoModel, rep, tier: str):
                           f"collects the rules for the same statement without testing {missing}: the argument positions of rules "
                           f"restricted to other files/lines/kinds decide whether a flow is reported")
 
+    # ------------------------------------------------------------------ R5
+    rmm = model.module("taint/rule_manager.py")
+    rmc = rmm.classes.get("RuleManager")
+    if rmc is None:
+        raise AnalysisError("RuleManager vanished")
+    lists = sorted({n.targets[0].attr for n in walk_no_nested(rmc.methods["__init__"].node) if isinstance(n, ast.Assign)
+                    and is_self_attr(n.targets[0]) and isinstance(n.value, ast.List) and n.targets[0].attr.startswith("all_")})
+    for lst in lists:
+        offenders = []
+        appends = 0
+        for mod in (rmm, m):
+            for f in mod.all_funcs():
+                for n in walk_no_nested(f.node):
+                    if isinstance(n, (ast.Assign, ast.AugAssign, ast.Delete)):
+                        tg = n.targets if isinstance(n, (ast.Assign, ast.Delete)) else [n.target]
+                        for t in tg:
+                            base = t.value if isinstance(t, ast.Subscript) else t
+                            if isinstance(base, ast.Attribute) and base.attr == lst and not (f.name == "__init__" and f.cls is rmc and isinstance(getattr(n, "value", None), ast.List)):
+                                offenders.append((f, n))
+                    if isinstance(n, ast.Call) and isinstance(n.func, ast.Attribute) and isinstance(n.func.value, ast.Attribute) and n.func.value.attr == lst:
+                        if n.func.attr == "append":
+                            appends += 1
+                        elif n.func.attr in ("remove", "pop", "clear", "sort", "reverse", "insert"):
+                            offenders.append((f, n))
+        key = f"taint/rule_manager.py::RuleManager.{lst}::append-only"
+        if offenders:
+            f, n = offenders[0]
+            rep.violation("C11.R5", key, f.module.rel, n.lineno,
+                          f"{f.ref} replaces or removes entries of RuleManager.{lst} (`{norm(n)}`): a rule added to the configuration can "
+                          f"displace one that justified a flow, so adding rules removes previously reported flows")
+        else:
+            rep.holds("C11.R5", key, "taint/rule_manager.py", rmc.node.lineno, f"{appends} append site(s); never reassigned, filtered or reordered")
+
 
 # ---------------------------------------------------------------- self-test mutants
 def _m(kind, cls, func, pred, new=None, nth=0):
@@ -318,6 +390,13 @@ def _m(kind, cls, func, pred, new=None, nth=0):
 
 
 MUTANTS = [
+    ("sentinel-exclusion-dropped", TA, _m("expr", "TaintRuleApplier", "get_sink_tag_by_rules",
+                                          lambda e: isinstance(e, ast.BoolOp) and isinstance(e.op, ast.And) and "target_pos != -1" in norm(e),
+                                          "weight_pos == target_pos"), "excludes the sentinel"),
+    ("rules-deduplicated", "taint/rule_manager.py",
+     lambda src: __import__("sa.mutate", fromlist=["x"]).insert_after_stmt_where(
+         src, "RuleManager", "init", lambda st: isinstance(st, ast.With), "self.all_sinks = list({(r.name, r.operation): r for r in self.all_sinks}.values())", nth=-1),
+     "all_sinks::append-only"),
     ("guard-removed", TA, _m("stmt", "TaintAnalysis", "find_flows",
                              lambda st: isinstance(st, ast.If) and isinstance(st.test, ast.Compare) and isinstance(st.test.left, ast.BinOp),
                              "flow = self.path_finder.reconstruct_define_use_path(source, sink)\nflow.vuln_type = vuln_type\nflow_list.append(flow)"),
